@@ -1,6 +1,6 @@
 CONSTANTS
  Addrs = {"a1"}
- Tokens <- Tok2
+ Tokens <- Tok1
  Limit = 20
  Window = 60
  TTL = 43200
